@@ -20,6 +20,8 @@
 //!                                   reply to one more call (thorough tier, and whenever a proof obligation of the property is broken)
 //!   rqmany <n>                      nobody is bound: n concurrent calls time out, so does one more; then a replier binds and
 //!                                   three more calls on the same requestor are answered
+//!   rqretry                         two separately opened requestor streams, equal ids; one is cut and calls: it gets its own reply
+//!   rqfrac <micros>                 a request timeout that is not a whole number of milliseconds bounds the call all the same
 //!   rqdead <n> <victim>            n requestor streams, each on a connection of its own, have one request in flight (all with
 //!                                   the same req_id: every stream counts from 0); the connection of requestor <victim> is
 //!                                   cut; the replier answers the victim's request first (the router finds the dead sink and
@@ -461,6 +463,44 @@ async fn run_many(addr: SocketAddr, certs: &Certs, n: usize) -> anyhow::Result<S
     Ok(format!("{first} | {one_more} | {}", last.join(",")))
 }
 
+/// `rqretry`: two separately opened requestor streams (each counts its request ids from 0) and a library replier. The first
+/// stream's call 0 is answered; the second stream's connection is cut and its call 0 is made: whatever the keep-alive wrapper
+/// re-sends after reconnecting, the caller gets the reply to *its* request. Line: `ok,ok`.
+async fn run_retry(addr: SocketAddr, certs: &Certs) -> anyhow::Result<String> {
+    let topic = format!("/verif/rpc{}", TOPIC.fetch_add(1, Ordering::SeqCst));
+    let rc = client(addr, certs, BackoffStrategy::constant().with_max_attempts(3).with_step(Duration::from_millis(30))).await?;
+    let mut replier = rc.replier(&topic).with_request_decoder(StringCodec).with_reply_encoder(StringCodec)
+        .with_handler(|req: String| async move { Ok::<_, anyhow::Error>(format!("r:{req}")) }).open().await?;
+    let rep = tokio::spawn(async move { let _ = replier.listen().await; });
+    tokio::time::sleep(Duration::from_millis(60)).await;
+    let ca = client(addr, certs, BackoffStrategy::constant().with_max_attempts(3).with_step(Duration::from_millis(30))).await?;
+    let cb = client(addr, certs, BackoffStrategy::constant().with_max_attempts(3).with_step(Duration::from_millis(30))).await?;
+    let mut a = ca.requestor(&topic).with_request_encoder(StringCodec).with_reply_decoder(StringCodec).with_request_timeout(1500u64)?.open().await?;
+    let mut b = cb.requestor(&topic).with_request_encoder(StringCodec).with_reply_decoder(StringCodec).with_request_timeout(1500u64)?.open().await?;
+    let ra = match tokio::time::timeout(Duration::from_secs(8), a.request("first0".to_string())).await { Err(_) => "hang".to_string(), Ok(r) => outcome(&r, "first0") };
+    cb.verif_close_connection().await;
+    let mut rb = "timeout".to_string();
+    for _ in 0..4 {
+        rb = match tokio::time::timeout(Duration::from_secs(8), b.request("second0".to_string())).await { Err(_) => "hang".to_string(), Ok(r) => outcome(&r, "second0") };
+        if rb != "timeout" { break; }
+    }
+    rep.abort();
+    Ok(format!("{ra},{rb}"))
+}
+
+/// `rqfrac <micros>`: nobody is bound; a requestor whose timeout is not a whole number of milliseconds: the call fails with
+/// a timeout error in time (the configured duration is what bounds the call, whatever its unit). Line: `timeout`.
+async fn run_frac(addr: SocketAddr, certs: &Certs, micros: u64) -> anyhow::Result<String> {
+    let topic = format!("/verif/rpc{}", TOPIC.fetch_add(1, Ordering::SeqCst));
+    let client = client(addr, certs, BackoffStrategy::constant().with_max_attempts(0)).await?;
+    let mut rq = client.requestor(&topic).with_request_encoder(StringCodec).with_reply_decoder(StringCodec).with_request_timeout(Duration::from_micros(micros))?.open().await?;
+    let t0 = std::time::Instant::now();
+    Ok(match tokio::time::timeout(Duration::from_secs(6), rq.request("x".to_string())).await {
+        Err(_) => "hang".to_string(),
+        Ok(r) => { let o = outcome(&r, "x"); if o == "timeout" && t0.elapsed() > Duration::from_micros(micros) + Duration::from_secs(3) { format!("late:{}ms", t0.elapsed().as_millis()) } else { o } }
+    })
+}
+
 async fn run_reuse(addr: SocketAddr, certs: &Certs, rounds: usize) -> anyhow::Result<String> {
     let mut outs = vec![];
     for _ in 0..rounds {
@@ -520,16 +560,20 @@ pub fn run(cfg: &Cfg) {
         if cfg.tier == Tier::Thorough || searching() { cases.push("rqwrap 131071".into()); }
         cases.push("rqstallc 16 900".into());
         cases.push("rqmany 1100".into());
+        cases.push("rqretry".into());
+        for us in [400_500u64, 1_333_333, 999, 250_001] { cases.push(format!("rqfrac {us}")); }
         cases.push("rq 2 1 400 rev l,l".into());
         cases.push("rq 1 4 400 rev l,r,d,u".into());
     }
     for c in &cases {
         let t: Vec<&str> = c.split(' ').collect();
-        if t[0] == "rqmany" || t[0] == "rqstallc" || t[0] == "rqwrap" || t[0] == "rqdead" || t[0] == "rqcut" || t[0] == "rqreuse" || t[0] == "rqstall" || t[0] == "rqlate" || t[0] == "rqstagger" {
+        if t[0] == "rqretry" || t[0] == "rqfrac" || t[0] == "rqmany" || t[0] == "rqstallc" || t[0] == "rqwrap" || t[0] == "rqdead" || t[0] == "rqcut" || t[0] == "rqreuse" || t[0] == "rqstall" || t[0] == "rqlate" || t[0] == "rqstagger" {
             let res = rt.block_on(async {
                 tokio::time::timeout(Duration::from_secs(90), async {
                     if t[0] == "rqstallc" { run_stall_concurrent(addr, &certs, t[1].parse()?, t[2].parse()?).await }
                     else if t[0] == "rqmany" { run_many(addr, &certs, t[1].parse()?).await }
+                    else if t[0] == "rqretry" { run_retry(addr, &certs).await }
+                    else if t[0] == "rqfrac" { run_frac(addr, &certs, t[1].parse()?).await }
                     else if t[0] == "rqwrap" { run_wrap(addr, &certs, t[1].parse()?).await }
                     else if t[0] == "rqdead" { run_dead(addr, &certs, t[1].parse()?, t[2].parse()?).await }
                     else if t[0] == "rqcut" { run_cut(addr, &certs, t[1].parse()?, t[2].parse()?).await }
@@ -540,7 +584,7 @@ pub fn run(cfg: &Cfg) {
                 }).await
             });
             // scenarios with outages speak for C12 as well (requests issued after recovery are answered)
-            let tag = if t[0] == "rqcut" || t[0] == "rqstagger" { "C04/C12" } else { "C04" };
+            let tag = if t[0] == "rqcut" || t[0] == "rqstagger" || t[0] == "rqretry" { "C04/C12" } else { "C04" };
             let (imp, mon) = match res {
                 Err(_) => ("TIMEOUT".to_string(), Err(format!("{tag}: the exchange did not complete within 90 s"))),
                 Ok(Err(e)) => (format!("ERROR {}", format!("{e:?}").replace('\n', " ").chars().take(200).collect::<String>()), Err(format!("{tag}: {e}"))),
@@ -551,7 +595,7 @@ pub fn run(cfg: &Cfg) {
                         if o.starts_with("wrong") { m = Err(format!("{tag}: request() returned another request's reply ({o}) [{line}]")); break; }
                         if o.starts_with("late") { m = Err(format!("{tag}: a request that cannot be handed over (the replier reads nothing, other clones are stuck in the same send) reported its timeout late ({o}) [{line}]")); break; }
                         if o == "hang" { m = Err(format!("{tag}: a request whose reply cannot arrive did not fail with a timeout error: request() never returned [{line}]")); break; }
-                        let want = if ((t[0] == "rqreuse" || t[0] == "rqlate") && j % 3 == 0) || t[0] == "rqstall" || t[0] == "rqstallc" || (t[0] == "rqmany" && j < 2) { "timeout" } else { "ok" };
+                        let want = if ((t[0] == "rqreuse" || t[0] == "rqlate") && j % 3 == 0) || t[0] == "rqstall" || t[0] == "rqstallc" || t[0] == "rqfrac" || (t[0] == "rqmany" && j < 2) { "timeout" } else { "ok" };
                         if o != want { m = Err(format!("{tag}: call {j} ended with {o}, expected {want} [{line}]")); break; }
                     }
                     (line, m)
